@@ -8,6 +8,6 @@ NA = {
     'C14': 'format-string segmentation is winnow combinator code in src/find_parser/format.rs; only the numeric conversion inside the octal escape is reachable and is covered under C03.',
     'C16': 'a property of all schedules of a foreign runtime (Guile threads) executing generated text; Rust contracts are silent on it. The port/mutex pairing it relies on is proved under C11.',
     'C18': 'depends on which context labels winnow accumulates and where its cursor stops at failure: combinator behaviour, no contract within reach can express it.',
-    'C04': NB, 
-    'C20': NB,
+    
+    
 }
